@@ -23,6 +23,41 @@ theorem C08_pattern_plain_spec (t : Tbl) (m : Match) (sel name : String) (offset
       ∀ j, j ∈ l ↔ ∃ (i : Nat) (nm : String), t.indexCol[i]? = some nm ∧ m nm = true ∧ j = (i : Int) + offset :=
   ⟨_, C08_pattern_plain t m sel name offset h, positionsWhere_spec t.indexCol m offset⟩
 
+/-- **`'regex::count'`** (when the literal text before `::` is not itself a row label with such an occurrence — that
+    case takes the exact-label fast path, known finding D24): the positions of the `count`-th occurrence (negative
+    counts from the last) of *every* matching name, ascending, shifted by the offset — independent of any iteration
+    order -/
+theorem C08_count_selector (t : Tbl) (h : Coherent t) (m : Match) (sel name : String) (c offset : Int)
+    (hsplit : splitNameCountOffset t sel = .ok (name, some c, offset))
+    (hfast : scanLookup t.indexCol name c offset = none) :
+    ∃ l, (getRegexpIndices t m sel).2 = .ok l ∧ l.Pairwise (· ≤ ·) ∧
+      ∀ j, j ∈ l ↔ ∃ (nn : String) (i : Int), nn ∈ t.indexCol ∧ m nn = true ∧
+        scanLookup t.indexCol nn c 0 = some i ∧ j = i + offset := by
+  have hs := getRowCache_scan t h name c offset
+  have hk := getRowCache_keeps t h name (some c) offset
+  unfold getRegexpIndices
+  simp only [hsplit]
+  generalize getRowCache t name (some c) offset = r at hs hk
+  obtain ⟨t1, x⟩ := r
+  simp only at hs hk
+  subst hs
+  rw [hfast]
+  simp only
+  obtain ⟨t', he, _⟩ := regexp_loop_spec c (firstOccNames t1.indexCol m) t1 [] hk.1
+  rw [he]
+  simp only [List.nil_append]
+  rw [hk.indexCol]
+  obtain ⟨hsorted, hmem⟩ := sortInts_spec ((firstOccNames t.indexCol m).filterMap (fun nn => scanLookup t.indexCol nn c 0))
+  refine ⟨_, rfl, ?_, ?_⟩
+  · exact List.Pairwise.map _ (fun a b hab => by omega) hsorted
+  · intro j
+    simp only [List.mem_map, hmem, List.mem_filterMap, mem_firstOccNames]
+    constructor
+    · rintro ⟨i, ⟨nn, ⟨hnn, hm⟩, hsc⟩, rfl⟩
+      exact ⟨nn, i, hnn, hm, hsc, rfl⟩
+    · rintro ⟨nn, i, hnn, hm, hsc, rfl⟩
+      exact ⟨i, ⟨nn, ⟨hnn, hm⟩, hsc⟩, rfl⟩
+
 /-- a Boolean mask selects exactly the positions holding `True`, ascending -/
 theorem C08_mask_selector (t : Tbl) (m : String → Match) (l : List Bool) (hne : l ≠ []) :
     ∃ r, getRowIndices t m (.bools l) = (t, .ok (.idx r)) ∧ r.Pairwise (· < ·) ∧
